@@ -7,6 +7,7 @@
 (*   {"ev":"Advance","now":12}                    Advance(base + 12 units)                         *)
 (*   {"ev":"Add","now":12,"i":3,"to":7}           Add(item 3, 7 units); item ids are never reused  *)
 (*   {"ev":"Purge","now":15,"has":true,"v":3}     result of Purge                                  *)
+(*   {"ev":"Note","what":"burst"}                 harness annotation (class of the history), no effect *)
 EXTENDS TimerWheel, Json
 
 CONSTANT MaxItem
@@ -44,7 +45,9 @@ TracePurge == /\ IsEvent("Purge") /\ Clock
               /\ RefReturn(Log[l].has, Log[l].v)
               /\ UNCHANGED adv /\ Machine
 
-TraceNext == TraceReset \/ TraceAdvance \/ TraceAdd \/ TracePurge
+TraceNote == IsEvent("Note") /\ UNCHANGED <<now, adv, st, addedAt, tmo, fresh>> /\ Machine
+
+TraceNext == TraceReset \/ TraceAdvance \/ TraceAdd \/ TracePurge \/ TraceNote
 TraceSpec == TraceInit /\ [][TraceNext]_tvars
 
 TraceAccepted == TLCGet("stats").diameter - 1 = Len(Log)
